@@ -197,8 +197,7 @@ pub fn round(writer: &mut Sut, replica: &mut Replica, plan: &Plan) -> Result<Rou
         Ok(Err(e)) => Err(fail(format!("verify:err:{}", ops::err_sig(&e)), format!("replica rejected an honest proof for {req:?}: {e}"))),
         Ok(Ok(false)) => Err(fail("verify:refused-false", format!("replica answered false to an honest proof for {req:?}"))),
         Ok(Ok(true)) => {
-            let w = writer.model.clone();
-            replica.model_accept(&proof, &w);
+            replica.model_accept(&proof, &writer.model);
             Ok(RoundResult::Applied(proof))
         }
     }
